@@ -16,14 +16,18 @@ Among(g, ids, vals) == NaSortAsc([i \in 1..Len(ids) |-> vals[ids[i]]])
 InternalSeq(g) == SelectSeq(NodeSeq(g), LAMBDA x : ~IsLeaf(g, x))
 LeafIdSeq(g) == SelectSeq(NodeSeq(g), LAMBDA x : IsLeaf(g, x))
 SpreadOf(S) == Max(S) - Min(S)
+\* events carry hist = "" (freshly built tree) or the history that preceded the query: every cache populated
+\* (bipartition encoding, ages, root distances, depths), then an edit without update.  The expected value is
+\* always the definition on the tree as projected AFTER the edit; the class tells the two situations apart.
+Stale(e) == IF e.hist = "" THEN "" ELSE "@stale_caches"
 
 \* ------------------------------------------------------------------ calc_node_ages / node_ages / internal_node_ages
-JudgeAgeRun(g, td, exact, r) ==
+JudgeAgeRun(g, td, exact, r, sfx) ==
     LET forced == r.fmax \/ r.fmin
         checked == ~forced /\ ~r.dis
         um == \A x \in Internals(g) : SpreadOf(td[x]) * r.prec[2] <= r.prec[1] * LScale
         mode == IF r.fmax THEN "max" ELSE IF r.fmin THEN "min" ELSE IF r.dis THEN "disabled" ELSE "checked"
-        cls == r.api \o "/" \o mode
+        cls == r.api \o "/" \o mode \o sfx
         shape == IF exact THEN "/exact" ELSE "/inexact"
     IN IF checked /\ ~um
          THEN (IF r.raised = "UltrametricityError" THEN None
@@ -42,14 +46,14 @@ JudgeAges(e) ==
     LET g == e.g
         td == [x \in Nodes(g) |-> TipDist(g, x)]
         exact == \A x \in Nodes(g) : Cardinality(td[x]) = 1
-    IN Flatten([i \in 1..Len(e.runs) |-> JudgeAgeRun(g, td, exact, e.runs[i])])
+    IN Flatten([i \in 1..Len(e.runs) |-> JudgeAgeRun(g, td, exact, e.runs[i], Stale(e))])
 
 \* ------------------------------------------------------------------ depths, root distances, resolved ages
 JudgeDepths(e) ==
     LET g == e.g
         dp == [x \in 1..g.n |-> Depth(g, x)]
         deep == Max(LeafDepths(g))
-        D(ok, k) == IF ok THEN None ELSE V("C17.DepthIsRootDistance", k)
+        D(ok, k) == IF ok THEN None ELSE V("C17.DepthIsRootDistance", k \o Stale(e))
     IN IF e.raised # "" THEN V("C17.DepthIsRootDistance", "raised:" \o e.raised)
        ELSE D(e.rnd = dp, "resolve_node_depths") \o D(e.rnd_attr = dp, "resolve_node_depths/attr")
             \o D(e.crd_attr = dp, "calc_node_root_distances/attr")
@@ -58,7 +62,7 @@ JudgeDepths(e) ==
             \o D(e.maxd = deep, "max_distance_from_root")
             \o D(e.minmax = <<Min(LeafDepths(g)), deep>>, "minmax_leaf_distance_from_root")
             \o (IF e.rna = [x \in 1..g.n |-> ResolvedAge(g, x)] /\ e.rna_attr = e.rna THEN None
-                ELSE V("C17.ResolvedAge", IF Ultrametric(g, RZero) THEN "ultrametric" ELSE "non_ultrametric"))
+                ELSE V("C17.ResolvedAge", (IF Ultrametric(g, RZero) THEN "ultrametric" ELSE "non_ultrametric") \o Stale(e)))
 
 \* ------------------------------------------------------------------ num_lineages_at
 QClass(g, d2) ==
@@ -69,7 +73,7 @@ JudgeLineages(e) ==
     LET g == e.g
         badq == {i \in 1..Len(e.q) : e.q[i][2] # Lineages(g, e.q[i][1])}
         classes == {QClass(g, e.q[i][1]) : i \in badq}
-        one(c) == IF c \in classes THEN V("C17.LineagesAreCrossingEdges", c) ELSE None
+        one(c) == IF c \in classes THEN V("C17.LineagesAreCrossingEdges", c \o Stale(e)) ELSE None
     IN IF e.raised # "" THEN V("C17.LineagesAreCrossingEdges", "raised:" \o e.raised)
        ELSE one("at_root") \o one("at_node_depth") \o one("between_node_depths") \o one("beyond_deepest_node")
 
@@ -113,15 +117,30 @@ StatWant(g, name) ==
       [] name = "b1" -> <<TRUE, B1(g)>>
       [] name = "treeness" -> IF SubtendedLen(g) > 0 THEN <<TRUE, Treeness(g)>> ELSE <<FALSE, RZero>>
       [] name = "gamma" -> IF GammaDefined(g) THEN <<TRUE, GammaParts(g).ratio>> ELSE <<FALSE, RZero>>
-JudgeStat(g, api, st) ==
+JudgeStat(g, api, st, sfx) ==
     LET w == StatWant(g, st.name) IN
     IF ~w[1] THEN None                                     \* outside the documented precondition: free
+    ELSE IF sfx # "" THEN (IF st.raised = "" /\ RatIs(st.v, w[2]) THEN None ELSE V(StatClause(st.name), api \o "/" \o st.name \o sfx))
     ELSE IF st.raised # "" THEN V(StatClause(st.name), api \o "/" \o st.name \o ":" \o st.raised)
     ELSE IF RatIs(st.v, w[2]) THEN None
     ELSE V(StatClause(st.name), api \o "/" \o st.name \o (IF st.v[3] THEN "" ELSE "/not_representable"))
 JudgeStats(e) ==
     IF e.nl # NLeaves(e.g) THEN V("C17.InputWellFormed", "harness_leaf_count")
-    ELSE Flatten([i \in 1..Len(e.stats) |-> JudgeStat(e.g, e.api, e.stats[i])])
+    ELSE Flatten([i \in 1..Len(e.stats) |-> JudgeStat(e.g, e.api, e.stats[i], Stale(e))])
+
+\* pybus_harvey_gamma(tree, prec): documented to raise when the paths differ by more than prec (an absolute number)
+JudgeGammaPrec(e) ==
+    LET g == e.g IN
+    IF e.nl # NLeaves(g) THEN V("C17.InputWellFormed", "harness_leaf_count")
+    ELSE IF ~(IsBinary(g) /\ NLeaves(g) >= 3 /\ Max(LeafDepths(g)) > 0) THEN None     \* outside the precondition: free
+    ELSE IF ~Ultrametric(g, e.prec)
+      THEN (IF e.raised = "UltrametricityError" THEN None
+            ELSE V("C17.Gamma", IF e.raised # "" THEN "prec/not_rejected:" \o e.raised
+                                ELSE IF ShippedAccepts(g, e.prec) THEN "prec/within_prec_of_first_child_only"
+                                ELSE "prec/not_rejected"))
+    ELSE IF e.raised # "" THEN V("C17.Gamma", "prec/rejected_within_precision:" \o e.raised)
+    ELSE IF Ultrametric(g, RZero) /\ ~RatIs(e.v, GammaParts(g).ratio) THEN V("C17.Gamma", "prec/value")
+    ELSE None
 
 \* the same calls on a tree whose child lists were permuted: equal results (where defined for the original)
 JudgePerm(e) ==
@@ -140,6 +159,7 @@ Judge(e) ==
            [] e.action = "Lineages" -> JudgeLineages(e)
            [] e.action = "EdgeLens" -> JudgeEdgeLens(e)
            [] e.action = "Stats" -> JudgeStats(e)
+           [] e.action = "GammaPrec" -> JudgeGammaPrec(e)
            [] e.action = "StatsPerm" -> JudgePerm(e)
 
 Init == l = 1 /\ bad = <<>>
